@@ -1,5 +1,8 @@
 use std::sync::Arc;
+#[cfg(not(feature = "verif"))]
 use tokio::sync::RwLock;
+#[cfg(feature = "verif")]
+use crate::verif::RwLock;
 
 use emmylua_code_analysis::EmmyLuaAnalysis;
 
